@@ -14,6 +14,7 @@ TRUSTED_BASE = [
     "Lean 4.33 kernel (lake build; thorough tier re-checks the .olean files with leanchecker)",
     "axioms allowed in property theorems: propext, Classical.choice, Quot.sound (audited with #print axioms on every run); no sorry/admit/native_decide/bv_decide/own axioms (grepped on every run)",
     "harness/translate.py: regenerates lean/BumpverVerif/Gen/*.lean from /repo's working tree on every run (trusted to transcribe literals; the tables are also executed by the driver in the correspondence check)",
+    "harness/translate_funcs.py: translates the BODY of eight small property-critical functions (parse._has_overlap, rewrite.detect_line_sep, version.quarter_from_month, v2version._is_cal_gt / is_valid_week_pattern / _ver_to_cal_info, cli._parse_vcs_options, setuptools_v65_version._parse_letter_version) from their Python AST to Lean on every run; each is PROVED equal to the hand model (Proofs/Tie_*.lean). Trusted: the translator's reading of the documented Python subset (typing and truthiness rules in harness/TRANSLATE_FUNCS.md), its hard-coded signature table, and the shared string primitives (isInfix, replaceAll, strToNat, lowerStr, lexLt)",
     "correspondence check: the executable Lean model (compiled driver) and the real bumpver code run on the same generated inputs; generator quality bounds what it sees",
     "modelled rather than verified: Python re on the fragment bumpver uses, datetime/strftime fields, str.format on command templates, shlex.split, lexid.next_id, list.sort stability, tuple comparison",
     "not modelled (parameters): configparser, toml, difflib, click option parsing, UTF-8 codec/open(), glob, subprocess, git, hg",
